@@ -73,10 +73,113 @@ pub fn run(ctx: &Ctx) -> Report {
         })
         .reduce(Acc::default, |a, b| a.merge(b));
     let acc = acc.merge(acc_types);
+    // (3) large messages: one big attribute followed by every tail over {MI, MI256, FP ok, FP bad, OPT}
+    //     of length <= 2, so that the tail ends at every multiple of four in 65 480..=65 552 and
+    //     around 255/256, 4 095/4 096 and 32 767/32 768; plus declared-length perturbations and
+    //     values that look like attribute headers of sealing attributes
+    let mut big: Vec<Vec<u8>> = Vec::new();
+    let tails = engine_in::sequences(&[Tok::Mi, Tok::Mi256(32), Tok::FpOk, Tok::FpBad, Tok::Opt(3)], 2);
+    let mut ends: Vec<usize> = (65_480..=65_552).step_by(4).collect();
+    ends.extend([256usize, 260, 4096, 4100, 32_764, 32_768, 32_772]);
+    for end in &ends {
+        for tail in &tails {
+            // render the tail on an empty message first to learn its size, then size the filler
+            let tail_len = engine_in::render(0, 1, t0, tail).len() - 20;
+            if *end < 20 + 4 + tail_len {
+                continue;
+            }
+            let fill = *end - 20 - 4 - tail_len;
+            if fill % 4 != 0 {
+                continue;
+            }
+            let mut b = wire::encode_header(c0, m0, t0, 0);
+            let v: Vec<u8> = (0..fill).map(|i| (i % 253) as u8).collect();
+            wire::append_raw(&mut b, 0x8031, &v);
+            for t in tail {
+                match *t {
+                    Tok::Mi => wire::append_mi(&mut b, engine_in::KEY),
+                    Tok::Mi256(n) => wire::append_mi256(&mut b, engine_in::KEY, n as usize),
+                    Tok::FpOk => wire::append_fp(&mut b),
+                    Tok::FpBad => {
+                        wire::append_fp(&mut b);
+                        let l = b.len();
+                        b[l - 1] ^= 1;
+                    }
+                    Tok::Opt(n) => wire::append_raw(&mut b, 0xFF00, &vec![0xA7; n as usize]),
+                    _ => unreachable!(),
+                }
+            }
+            if b.len() - 20 <= 0xFFFF {
+                big.push(b);
+            }
+        }
+    }
+    // lookalike values (see C03): an attribute whose value ends in / consists of the header of a
+    // FINGERPRINT, MESSAGE-INTEGRITY or MESSAGE-INTEGRITY-SHA256 attribute, last or followed by a tail
+    for (t, l) in [(wire::FP, 4usize), (wire::MI, 20), (wire::MI256, 32)] {
+        for tail in &tails {
+            for lead in [0usize, 4] {
+                let mut b = wire::encode_header(c0, m0, t0, 0);
+                let mut v = vec![0x11u8; lead];
+                v.extend_from_slice(&t.to_be_bytes());
+                v.extend_from_slice(&(l as u16).to_be_bytes());
+                v.extend(std::iter::repeat(0x5A).take(l));
+                wire::append_raw(&mut b, 0xFF10, &v);
+                let mut w = vec![0x22u8; 4];
+                w.extend_from_slice(&t.to_be_bytes());
+                w.extend_from_slice(&(l as u16).to_be_bytes());
+                w.extend_from_slice(&[1, 2, 3, 4]);
+                let mut b2 = b.clone();
+                wire::append_raw(&mut b2, 0xFF11, &w);
+                for bb in [&mut b, &mut b2] {
+                    for tk in tail {
+                        match *tk {
+                            Tok::Mi => wire::append_mi(bb, engine_in::KEY),
+                            Tok::Mi256(n) => wire::append_mi256(bb, engine_in::KEY, n as usize),
+                            Tok::FpOk => wire::append_fp(bb),
+                            Tok::FpBad => {
+                                wire::append_fp(bb);
+                                let l = bb.len();
+                                bb[l - 1] ^= 1;
+                            }
+                            Tok::Opt(n) => wire::append_raw(bb, 0xFF00, &vec![0xA7; n as usize]),
+                            _ => unreachable!(),
+                        }
+                    }
+                }
+                big.push(b);
+                big.push(b2);
+            }
+        }
+    }
+    let n_big = big.len();
+    let acc_big = big
+        .par_iter()
+        .fold(Acc::default, |mut acc, b| {
+            acc.nontrivial += 1;
+            judge_guarded(judge, &Case::new("parse", b.clone()).text(&["large"]), &mut acc);
+            let body = b.len() - 20;
+            for l in [body.wrapping_sub(4), body + 4, body.wrapping_sub(1), 0] {
+                if l <= 0xFFFF && l != body {
+                    let mut x = b.clone();
+                    wire::set_len(&mut x, l);
+                    judge_guarded(judge, &Case::new("parse", x).text(&["large+hdrlen"]), &mut acc);
+                }
+            }
+            for cut in [1usize, 4, 8] {
+                if b.len() > 20 + cut {
+                    judge_guarded(judge, &Case::new("parse", b[..b.len() - cut].to_vec()).text(&["large+cut"]), &mut acc);
+                }
+            }
+            acc
+        })
+        .reduce(Acc::default, |a, b| a.merge(b));
+    let acc = acc.merge(acc_big);
+    let _ = n_big;
     Report {
         acc,
         exhaustive: true,
-        rule: "all attribute skeletons over {OPT,SW x len 0/1/3/4, MI, MI256, FP ok, FP bad} to the stated depth x 3 header variants; on each: every cut point, header-length perturbation, excess variant, per-attribute length perturbation, top bits, every cookie bit, non-zero padding; on skeletons of <= 3 attributes (thorough 4) also every value of every type/length byte of the header and of each attribute header and every single-bit flip of buffers up to 64 bytes; plus every 16-bit attribute type (value length 0 and 5) at each position of 10 templates around MI / MI256 / FP; distinct_nontrivial counts fault-free skeleton buffers".into(),
+        rule: "all attribute skeletons over {OPT,SW x len 0/1/3/4, MI, MI256, FP ok, FP bad} to the stated depth x 3 header variants; on each: every cut point, header-length perturbation, excess variant, per-attribute length perturbation, top bits, every cookie bit, non-zero padding; on skeletons of <= 3 attributes (thorough 4) also every value of every type/length byte of the header and of each attribute header and every single-bit flip of buffers up to 64 bytes; plus every 16-bit attribute type (value length 0 and 5) at each position of 10 templates around MI / MI256 / FP; large messages (one big attribute + every tail of <= 2 sealing attributes, ending at every multiple of 4 in 65480..=65552 and around 256 / 4096 / 32768) and values that look like sealing-attribute headers, each with header-length perturbations and cuts; distinct_nontrivial counts fault-free skeleton buffers".into(),
         bounds: json!({"skeletons": n_sk, "full_alphabet_depth": n_full, "small_alphabet_depth": n_small, "header_variants": 3, "faults": "single"}),
         assumptions: vec!["buffers outside the grammar alphabets and with two or more independent faults are not explored".into()],
         ..Default::default()
